@@ -23,7 +23,7 @@ RULE = ('cases: seeded declaration histories: 0-5 parameters declared through th
         'KeyError and leave build() unchanged. Non-trivial history: product of >=2 factors of length >=2 with a repeated value or a '
         'string/scalar factor, plus >=1 rejected op; distinct by (declaration signature, op trace). Products capped at 2000 in the histories; a scale regime builds products of 4 097-10 000 combinations and declarations of 1 100-2 100 parameters.')
 ASSUMPTIONS = ['collections are re-iterable (no one-shot iterators)', 'values compare with == (no NaN)']
-FLOORS = {'quick': {'builds_compared': 10000, 'empty_factor_products': 500, 'no_parameter_products': 100, 'string_factors': 800,
+FLOORS = {'quick': {'bag_factors': 215, 'builds_compared': 10000, 'empty_factor_products': 500, 'no_parameter_products': 100, 'string_factors': 800,
                     'scalar_factors': 800, 'repeated_value_factors': 600, 'numpy_factors': 600, 'range_factors': 600,
                     'rejected_nonstr_name': 1000, 'rejected_duplicate': 770, 'rejected_unknown_removal': 1000,
                     'sibling_list_checks': 500, 'big_builds': 6, 'declarations_with_1000_plus_parameters': 3, 'constructor_declarations': 740, 'rejected_constructor': 100, 'reach:Batching.ParameterList.build': 10000},
@@ -45,8 +45,11 @@ def gen_value(rng):
     if n and rng.random() < 0.15:
         base[0] = [1, 2]                    # a nested list stays one value
     k = rng.random()
-    if k < 0.4:
+    if k < 0.34:
         return list(base), 'list'
+    if k < 0.42:
+        from vlib import reps
+        return reps.Bag(base), 'bag'            # a re-iterable collection without len()
     if k < 0.6:
         return tuple(base), 'tuple'
     if k < 0.8:
@@ -61,6 +64,8 @@ def factor(value):
         return [value]
     if isinstance(value, (list, tuple, range)):
         return list(value)
+    if type(value).__name__ == 'Bag':
+        return list(value.items)
     if isinstance(value, np.ndarray):
         return [value[i] for i in range(len(value))]
     return [value]
